@@ -12,7 +12,7 @@ import AdaptixModel.Morph.Scalars
 import AdaptixModel.Generated.DocTable
 import AdaptixProofs.Lemmas.MiniPy
 
-namespace Adaptix.Morph.C07
+namespace Adaptix.Morph.C07Leaves
 open Adaptix.Py Adaptix.MiniPy Adaptix.Morph Adaptix.Generated.Scalars Adaptix.Generated.DocTable
 
 /-- a reachable call site without a catalogue row is assumed able to return (and to raise):
@@ -53,7 +53,7 @@ theorem strict_origins_nonvacuous :
 /-- **Strict scalar loaders respect the documented origins**: if the translated strict closure of a
     documented scalar returns a value on a datum — with its call sites behaving in any way the
     catalogue allows — the datum's class is one of the documented allowed strict origins. -/
-theorem strict_respects_origins (oracle : SiteOracle) (s : String) (allowed : List String)
+theorem strict_scalar_respects_origins (oracle : SiteOracle) (s : String) (allowed : List String)
     (hs : (s, allowed) ∈ allowedStrictOrigins)
     (hcat : ∀ prog cat, closureOf s true = some (prog, cat) →
       ∀ d site, (oracle true s d site).cls ∈ cat (factsOf d).tag site)
@@ -93,4 +93,4 @@ theorem strict_respects_origins (oracle : SiteOracle) (s : String) (allowed : Li
       exact ⟨htag, by simpa using hsound⟩
     exact List.all_eq_true.1 hrow _ hin
 
-end Adaptix.Morph.C07
+end Adaptix.Morph.C07Leaves
